@@ -37,6 +37,7 @@ type Program struct {
 	chaCG  *callgraph.Graph
 	Overlay map[string][]byte
 	LoadErrs []string
+	la *LockAnalysis
 }
 
 type LoadConfig struct {
